@@ -362,19 +362,31 @@ def eval_finite(case):
                 add('C08.term_correlation_function_right', got, want, detail=str((tL, tR, jR)))
                 got = psi.term_correlation_function_left(tR, tL, [0], L - 2)
                 want = [ev(D.term([(n, i) for n, i in tR] + [(n, i + L - 2) for n, i in tL]))]
-                add('C08.term_correlation_function_left', got, want, detail=str((tR, tL)))
+                add('C08.term_correlation_function_left' + ('[Jordan-Wigner string between the two terms]' if nj else ''),
+                    got, want, detail=str((tR, tL)))
             except Exception as e:
                 oracle.append(('C08.term_correlation_function.raises:%s' % type(e).__name__, repr(e)[:200]))
     # ---------------- terms sum (MPO route)
     terms, strengths = [], []
+
+    def diag_ops(site):
+        return [n for n in plain_ops(site) if np.count_nonzero(site.get_op(n).to_ndarray() - np.diag(np.diagonal(site.get_op(n).to_ndarray()))) == 0]
+
     for _ in range(rnd.randint(1, 4)):
         i, j = sorted(rnd.sample(range(L), 2)) if L >= 2 else (0, 0)
-        if rnd.random() < 0.3:
-            terms.append([(rnd.choice(plain_ops(sites[i])), i)])
-        elif jw_ops(sites[i]) and jw_ops(sites[j]) and rnd.random() < 0.5:
-            terms.append([(rnd.choice(jw_ops(sites[i])), i), (rnd.choice(jw_ops(sites[j])), j)])
+        r = rnd.random()
+        if r < 0.3 or i == j:
+            terms.append([(rnd.choice(diag_ops(sites[i])), i)])
+        elif r < 0.6:
+            terms.append([(rnd.choice(diag_ops(sites[i])), i), (rnd.choice(diag_ops(sites[j])), j)])
         else:
-            terms.append([(rnd.choice(plain_ops(sites[i])), i), (rnd.choice(plain_ops(sites[j])), j)])
+            # charge-neutral hopping-like term: an operator and its hermitian conjugate on another site
+            a = rnd.choice(sorted(n for n in sites[i].opnames if not n.startswith('JW') and n in sites[j].opnames))
+            h = hc_name(sites[j], a)
+            if h is None or repr(sites[i]) != repr(sites[j]) or sites[i].op_needs_JW(a) != sites[j].op_needs_JW(h):
+                terms.append([(rnd.choice(diag_ops(sites[i])), i)])
+            else:
+                terms.append([(a, i), (h, j)] if rnd.random() < 0.5 else [(h, j), (a, i)])
         strengths.append(rnd.choice([1.0, -0.5, 2.0, 0.25]) * (1j if (psi.dtype.kind == 'c' and rnd.random() < 0.3) else 1.0))
     try:
         tl = TermList(terms, strengths)
@@ -400,7 +412,9 @@ def eval_finite(case):
             want.append(si + sj - sij)
         add('C08.mutinf_two_site', mi, want, tol=1e-7)
     # ---------------- charge statistics
-    if psi.chinfo.qnumber > 0:
+    # (bond charges are the sum of the physical charges to the left only if no tensor carries a qtotal)
+    if psi.chinfo.qnumber > 0 and all(np.all(B.qtotal == 0) for B in psi._B) \
+            and np.all(psi._B[0].get_leg('vL').charges == 0):
         b = rnd.randint(1, L - 1) if L > 1 else 0
         try:
             charges, ps = psi.probability_per_charge(b)
@@ -439,16 +453,16 @@ def eval_finite(case):
         sig = [int(x) for x in sig]
         if first == 0 and last == L - 1:
             amp = ref_t[tuple(sig)]
-            add('C08.sample_measurements.weight', [wgt], [amp if cplx else abs(amp) ** 2],
-                detail='sigmas=%s complex_amplitude=%s' % (sig, cplx))
+            add('C08.sample_measurements.weight' + ('' if cplx or L == 1 else '[complex_amplitude=False, more than one site]'),
+                [wgt], [amp if cplx else abs(amp) ** 2], detail='sigmas=%s complex_amplitude=%s' % (sig, cplx))
             if trial == 0:
                 lines.append({'op': 'sample', 'num': 'f', 'mps': mc.dump_mps(psi), 'sigma': sig})
                 expects.append(('sample', amp, 'C08.model.sample-weight'))
         else:
             keep = list(range(first, last + 1))
             pr = np.real(np.diag(rdm(ketn, D.dims, keep)).reshape([D.dims[i] for i in keep])[tuple(sig)])
-            add('C08.sample_measurements.partial-range', [abs(wgt) ** 2 if cplx else wgt], [pr],
-                detail='range %d..%d sigmas=%s' % (first, last, sig))
+            add('C08.sample_measurements.partial-range' + ('' if cplx or last == first else '[complex_amplitude=False, more than one site]'),
+                [abs(wgt) ** 2 if cplx else wgt], [pr], detail='range %d..%d sigmas=%s' % (first, last, sig))
     # eigenbasis sampling with a diagonal operator
     diag_ops = [n for n in ('Sz', 'N', 'Ntot') if all(n in s.opnames for s in sites)]
     if diag_ops:
@@ -482,9 +496,13 @@ def eval_finite(case):
         nme = rnd.choice(plain_ops(sites[0])) if len(set(map(id, sites))) == 1 else 'Id'
         got = env.expectation_value(nme)
         add('C08.env.expectation_value', got, [ev(D.op(i, nme), brav, ketv) for i in range(L)], detail=nme)
-        got = env.correlation_function(o1, o2, s1, s2, opstr=opstr, str_on_first=sof)
-        add('C08.env.correlation_function', got, corr_want(o1, o2, s1, s2, opstr, sof, brav, ketv),
-            detail='ops1=%s ops2=%s sites1=%s sites2=%s opstr=%s sof=%s' % (o1, o2, s1, s2, opstr, sof))
+        got = np.array(env.correlation_function(o1, o2, s1, s2, opstr=opstr, str_on_first=sof))
+        wantc = corr_want(o1, o2, s1, s2, opstr, sof, brav, ketv)
+        on = np.array([[i == j for j in s2] for i in s1])
+        det = 'ops1=%s ops2=%s sites1=%s sites2=%s opstr=%s sof=%s' % (o1, o2, s1, s2, opstr, sof)
+        add('C08.env.correlation_function', got[~on], wantc[~on], detail=det)
+        unit = abs(phi.norm * psi.norm - 1.0) < 1e-12
+        add('C08.env.correlation_function.i=j' + ('' if unit else '[norm(bra)*norm(ket) != 1]'), got[on], wantc[on], detail=det)
         if L >= 2:
             got = env.expectation_value_multi_sites(ops, i0)
             add('C08.env.expectation_value_multi_sites', [got], [ev(full, brav, ketv)], detail=str((ops, i0)))
@@ -558,7 +576,10 @@ def eval_inf(case):
     psi.canonical_form()
     L = psi.L
     sites = psi.sites
-    n = 2 * L + 2
+    d0 = max(s.dim for s in sites)
+    n = L + 1
+    while n < 2 * L + 2 and d0 ** (n + 1) <= 256:
+        n += 1
     hist = ['kind=inf', 'L=%d' % L, 'complex=%s' % case.get('complex')]
     th = mc.np_theta(psi, 0, n)   # independent numpy bookkeeping of the canonical tensors
     dims = list(th.shape[1:-1])
